@@ -727,6 +727,10 @@ ALPHABET = {
                         call("matvec", A=S("T3s"), x=B2), call("to_dense", A=S("T3s"))],
     "chol_psd_f": [mk("Pf", _psd(dict(SP, layout="f"))), call("cholesky", A=S("Pf")), call("solve", A=S("Pf"), b=B, alg="CG",
                                                                                        akw={"max_iters": 4})],
+    "user_class_twice": [mk("Uc", {"k": "usercls", "n": N, "seed": 98}), mk("Ucf", {"k": "usercls", "n": N, "seed": 99, "fresh": True}),
+                         mk("Ucp", {"k": "product", "args": [{"k": "ref", "slot": "Ucf"}, DN]}),
+                         mk("Uca", {"k": "ann", "name": "PSD", "of": {"k": "ref", "slot": "Ucf"}}),
+                         call("flatten", A=S("Ucp"))],
     "getitem": [PRE["D"], mk("a_gi", {"k": "getitem", "of": {"k": "ref", "slot": "D"}, "s0": [0, 2], "s1": None})],
     "nodisp": [PRE["P"], mk("a_nd", {"k": "no_dispatch", "of": {"k": "ref", "slot": "P"}})],
     # ---- actions on caller-owned arrays -------------------------------------------------------
@@ -822,6 +826,9 @@ KINDS = {  # name -> (slot, recipe, rows, cols)
     "sliced_full": ("sl_full", {"k": "sliced_cls", "of": DN, "s0": [0, N], "s1": [0, N]}, N, N),
     "scalar_one": ("sc_one", {"k": "scalar", "c": 1.0, "n": N}, N, N),
     "tr_identity": ("tr_id", {"k": "transpose_cls", "of": ID}, N, N),
+    # user-defined operator classes (the class definition is re-executed for "fresh": new class, same qualified name)
+    "usercls": ("Uc", {"k": "usercls", "n": N, "seed": 98}, N, N),
+    "usercls_fresh": ("Ucf", {"k": "usercls", "n": N, "seed": 99, "fresh": True}, N, N),
     # complex and single-precision payloads (operand dtype = operator dtype: no promotion copy is made)
     "dense_c16": ("Dc", {"k": "dense", "n": N, "dtype": "c16", "seed": 91, "sym": "gen"}, N, N),
     "psd_c16": ("Pc", _psd({"k": "dense", "n": N, "dtype": "c16", "seed": 92, "sym": "psd"}), N, N),
@@ -861,7 +868,7 @@ ALPHABET3 = ["mk_dense", "mk_identity", "mk_generic", "mk_probe", "sum_b", "sum_
              "cg_reenter", "flatten_sum", "hutch", "import_precond", "algobj_cg_probe", "algobj_cg_block_raise",
              "algobj_cg_dense_of_inv_raise", "rsolve_chol", "rmv_inv_tri", "algobj_hutch_kron", "flatten_inv_cg", "ann_used_inv", "mm3_sl", "rmm3_sl",
              "mm3_kron", "rmm3_kron", "to_f4_kron_l", "chol_singular", "refuse_inv_cg_nonpsd", "refuse_chol_indef",
-             "mv_dense_strided"]
+             "mv_dense_strided", "user_class_twice"]
 
 
 def history(letters):
@@ -890,7 +897,7 @@ def sweep_histories(maxlen, full_pairs=True, seed=0):
     for L in names:
         yield (L, )
     if maxlen >= 2:
-        two = names if full_pairs else quick_pair_alphabet(seed, size=40)
+        two = names if full_pairs else quick_pair_alphabet(seed, size=30)
         for a, b in itertools.product(two, two):
             yield (a, b)
     if maxlen >= 3:
@@ -912,16 +919,16 @@ def phase_sweep(run, pool, maxlen):
         for key, dig in (res.get("call_results") or {}).items():
             prev = table.get(key)
             if prev is None:
-                table[key] = (dig, job["letters"])
+                table[key] = (dig, job["letters"], job["program"])
             elif prev[0] != dig and len(conflicts) < 5:
-                conflicts.append((key, prev, (dig, job["letters"])))
+                conflicts.append((key, prev, (dig, job["letters"], job["program"])))
 
     large = large_programs_c18() + matrix_programs_c18()
 
     def all_jobs():
         for j, p in enumerate(large):
             tag = ("matrix:" if p["program"]["config"].get("matrix") else "large:") + p["name"]
-            yield {"id": "L%d" % j, "kind": "program", "program": p["program"], "letters": [tag],
+            yield {"id": "L%d" % j, "kind": "program", "program": dict(p["program"], want_results=True), "letters": [tag],
                    "want_program": False, "deadline": 240, "run_seed": tag}
         for i, L in enumerate(sweep_histories(maxlen, full_pairs=maxlen >= 3, seed=run.seed)):
             yield {"id": i, "kind": "program", "program": history(L), "letters": list(L), "want_program": False,
@@ -930,18 +937,18 @@ def phase_sweep(run, pool, maxlen):
     jobs = all_jobs()
     pool.run(jobs, on, stop_flag=lambda: len(run.violations) >= 5 or len(run.harness) >= 5 or len(conflicts) >= 3)
     for key, a, b in conflicts[:2]:
-        prog = history(b[1])
+        pa, prog = dict(a[2], want_results=True), dict(b[2], want_results=True)
         run.violations.append(({"kind": "program", "run_seed": "sweep:" + "+".join(b[1]), "id": -1},
                                {"status": "violation", "program": None, "events_digest": None,
                                 "violation": {"property": "C18", "invariant": "I-HISTORY", "step": None, "detail": {
                                     "what": "the same call on the same operands returned different results in two histories",
                                     "call": key, "history_a": a[1], "history_b": b[1]}},
-                                "pair": [history(a[1]), prog]}))
+                                "pair": [pa, prog]}))
     run.phase_info["exhaustive_sweep"] = {
         "alphabet_size": len(ALPHABET), "reduced_alphabet_size": len(ALPHABET3), "max_length": maxlen, "histories": n[0],
         "exhaustive": True,
         "exhaustive_over": ("all 1-letter histories of the full alphabet, all 2-letter histories of the %s alphabet%s"
-                            % ("full" if maxlen >= 3 else "seed-rotated 40-letter sub-", ", all 3-letter histories of the reduced alphabet"
+                            % ("full" if maxlen >= 3 else "seed-rotated 30-letter sub-", ", all 3-letter histories of the reduced alphabet"
                                if maxlen >= 3 else "")), "distinct_calls_compared_across_histories": len(table),
         "large_programs": len(large_programs_c18()), "function_x_kind_matrix_programs": len(matrix_programs_c18()),
         "history_independence_conflicts": len(conflicts),
@@ -1230,6 +1237,81 @@ def matrix_programs_c18():
             out.append({"name": "%s/%s" % (ename, kname),
                         "program": {"property": "C18", "run_seed": 0, "rng0": 6, "config": {"matrix": [ename, kname]},
                                     "mode": "explicit", "steps": steps}})
+    # temporaries: the operand of the first call is dropped (really freed), a different operand of the same kind and
+    # shape is built (it may reuse the address), and the same call is made on it and on its twin
+    def reseed(rec, delta):
+        rr = copy.deepcopy(rec)
+
+        def bump(o):
+            if isinstance(o, dict):
+                if "seed" in o:
+                    o["seed"] = o["seed"] + delta
+                for v in o.values():
+                    bump(v)
+            elif isinstance(o, list):
+                for v in o:
+                    bump(v)
+        bump(rr)
+        return rr
+
+    def retarget(body, old, new):
+        b = copy.deepcopy(body)
+
+        def sub(o):
+            if isinstance(o, dict):
+                for k, v in list(o.items()):
+                    if k == "slot" and v == old:
+                        o[k] = new
+                    else:
+                        sub(v)
+            elif isinstance(o, list):
+                for v in o:
+                    sub(v)
+        sub(b)
+        return b
+
+    for kname in ("dense", "generic", "psd", "diag", "kron", "sum", "usercls_fresh", "dense_c16"):
+        slot, rec, rows, cols = KINDS[kname]
+        for ename, body in entries(slot, rows, cols, KIND_DTYPE.get(kname, "f8")):
+            body = body if isinstance(body, list) else [body]
+            if any(b["op"] != "call" or b.get("out") for b in body):
+                continue
+            steps = [mk(slot, rec)] + [copy.deepcopy(b) for b in body] + [{"op": "drop", "slot": slot}]
+            steps += [dict(mk("T2", reseed(rec, 1000)), reuse_id_of=slot), mk("T2b", reseed(rec, 1000))]
+            steps += [retarget(b, slot, "T2") for b in body] + [retarget(b, slot, "T2b") for b in body]
+            for j, s in enumerate(steps):
+                s["id"] = j
+            out.append({"name": "temporary/%s/%s" % (ename, kname),
+                        "program": {"property": "C18", "run_seed": 0, "rng0": 6, "config": {"matrix": ["temporary", ename, kname]},
+                                    "mode": "explicit", "steps": steps}})
+    # temporaries in a loop (see temporary_programs_c17): build, use, drop -- the next operand reuses the address -- plus the
+    # single-operand programs; compared through the cross-history table (operands identified by value)
+    def plain(kind, i):
+        if kind == "dense":
+            return {"k": "dense", "n": N, "dtype": "f8", "seed": 700 + i, "sym": "psd"}
+        return {"k": "generic", "n": N, "dtype": "f8", "seed": 800 + i, "sym": "psd"}
+
+    for kind in ("dense", "generic"):
+        for ename, body in entries("Tq", N, N, "f8"):
+            body = body if isinstance(body, list) else [body]
+            if any(b["op"] != "call" or b.get("out") for b in body):
+                continue
+            loop = []
+            for i in range(4):
+                one = [mk("Tq%d" % i, plain(kind, i))] + [retarget(b, "Tq", "Tq%d" % i) for b in body]
+                loop += one + [{"op": "drop", "slot": "Tq%d" % i}]
+                single = copy.deepcopy(one)
+                for j, s in enumerate(single):
+                    s["id"] = j
+                out.append({"name": "temporary-single/%s/%s/%d" % (ename, kind, i),
+                            "program": {"property": "C18", "run_seed": 0, "rng0": 6, "want_results": True,
+                                        "config": {"matrix": ["tsingle", ename, kind, i]}, "mode": "explicit", "steps": single}})
+            loop = copy.deepcopy(loop)
+            for j, s in enumerate(loop):
+                s["id"] = j
+            out.append({"name": "temporary-loop/%s/%s" % (ename, kind),
+                        "program": {"property": "C18", "run_seed": 0, "rng0": 6, "want_results": True,
+                                    "config": {"matrix": ["tloop", ename, kind]}, "mode": "explicit", "steps": loop}})
     # PSD-only entry points on the PSD-declared version of every square kind
     for kname, (slot, rec, rows, cols) in sorted(KINDS.items()):
         if rows != cols or kname in ("psd", ):
